@@ -9,7 +9,9 @@ PROP = {
             'reference on 1..10 nodes, weights up to 2^62/n, T up to 2^62. order: same siblings under 4 insertion orders, 5 evaluations over '
             'the Go map and 4 explicit visiting orders of iterationForRedistribution. tree: GroupQuotaManager histories on 1-3-level '
             'webhook-valid trees (UpdateQuota, OnPodAdd/Delete, UpdateClusterTotalResource, min/max/weight updates, lend toggles, '
-            'deletes), with and without scaleMinQuota and ElasticQuotaGuaranteeUsage; flat oracle at every parent. '
+            'deletes), with and without scaleMinQuota and ElasticQuotaGuaranteeUsage; at every parent the flat oracle, plus an independent statement of '
+            'the min-scaling rule (children\'s mins sum above the parent\'s runtime -> floor(T*min_i/sum), else unchanged; float tolerance only beyond '
+            '2^53) compared with the AutoScaleMin the manager uses, and its consequence (scaled minimums fit -> children together get at most the parent\'s runtime). '
             'non-trivial (DESIGN.md): at least two borrowers (request > max(min,guarantee)) with positive weight, positive capacity '
             'left after the minimums, and a non-zero remainder in the first largest-remainder split (order unit: additionally a tie on '
             'the remainder; hamilton: residual > 0 with >= 2 weighted nodes). distinct = FNV-64 of the full input.',
@@ -22,6 +24,9 @@ PROP = {
         'redistribution rounds; each round\'s largest-remainder share is less than one unit away from the exact share',
         'tree unit: per-child inputs (limited request, AutoScaleMin, Guaranteed, SharedWeight) are read from koordinator\'s QuotaInfo after a '
         'full refresh; upward aggregation of requests is C01\'s subject',
+        'min scaling: every child carries the manager\'s single scaleMinQuotaEnabled flag (scaleMinQuotaManager.update is only called with it), so the '
+        '"scale-disabled children first" branch is unreachable through GroupQuotaManager; on a cluster whose total was never non-zero koordinator keeps an '
+        'empty total list and scales nothing at the first level - that start-up state is excluded from the scaling rule (class counter)',
         'Go map iteration order inside quotaTree is not controlled; the order unit additionally calls iterationForRedistribution with explicit slice orders',
     ],
     'units': [{
